@@ -385,7 +385,7 @@ func c28Header(r *vhRng) (hb, pages, maxp uint32) {
 		hb = uint32(65536*r.Pick(1, 2, 16)) - uint32(r.Intn(64))
 	case 6:
 		// just below 4 GiB
-		hb = uint32(0x100000000 - uint64(r.Pick(8, 16, 24, 32, 40, 48, 64, 128, 1024, 65536, 65536+16, 1<<25+8, 1<<25+16, 1<<26)) - uint64(r.Intn(9)))
+		hb = uint32(0x100000000 - uint64(r.Pick(1, 8, 16, 24, 32, 40, 48, 64, 128, 1024, 65536, 65536+16, 1<<25+8, 1<<25+16, 1<<26)) - uint64(r.Intn(9)))
 	default:
 		hb = uint32(r.Intn(200))
 	}
